@@ -24,6 +24,8 @@ lane() {
     git -C /repo worktree remove --force $wt
   done
 }
+# build the Lean side once up front: concurrent `lake build`s of a stale tree race on the object files
+(cd /verif/lean && lake build Spdc spdcmodel >/dev/null 2>&1)
 i=0; declare -a L
 for s in $ids; do L[$((i % lanes))]+=" $s"; i=$((i+1)); done
 for k in $(seq 0 $((lanes-1))); do lane $k ${L[$k]} & done
